@@ -9,8 +9,10 @@ const RULE: &str = "rules classified on the AST as segment-only (input = 1-2 seg
 const SEG_IN: [&str; 16] = ["a", "i", "t", "s", "V", "C", "[+voice]", "[-cont]", "{p,t,k}", "O", "N", "[]", "V:[+long]", "C:[+stress]", "{V,n}", "[+son, tone:51]"];
 const SEG_OUT_M: [&str; 12] = ["[+voice]", "[-voice]", "[+nasal]", "[+hi, -lo]", "[-round]", "[+round]", "[-place]", "[+cont, -delrel]", "[-lab]", "[+dor]", "[Avoice]", "[+lat, +approx]"];
 const SEG_OUT_I: [&str; 6] = ["e", "o", "x", "m", "ʔ", "t͡s"];
-const PROS: [&str; 22] = ["% > [+stress]", "%:[+stress] > [-stress]", "% > [tone: 35]", "V > [+stress]", "C > [+sec.stress] / _#", "V:[+long] > [tone: 5]", "$ > * / V_V", "$ > *", "* > $ / V_CV", "* > $ / VC_CV", "$C > & / _#", "$C > &", "C$ > &", "V$ > & / _C",
-    "% > [-stress, tone: 0] / _%", "%:[tone: 51] > [tone: 15]", "V > [-sec.stress]", "⟨...V⟩ > [+stress] / _%#", "% > [+sec.stress] / %:[+stress]_", "[+nasal] > [tone: 3]", "* > $ / _C#", "$ > * / _C"];
+const PROS: [&str; 30] = ["% > [+stress]", "%:[+stress] > [-stress]", "% > [tone: 35]", "V > [+stress]", "C > [+sec.stress] / _#", "V:[+long] > [tone: 5]", "$ > * / V_V", "$ > *", "* > $ / V_CV", "* > $ / VC_CV", "$C > & / _#", "$C > &", "C$ > &", "V$ > & / _C",
+    "% > [-stress, tone: 0] / _%", "%:[tone: 51] > [tone: 15]", "V > [-sec.stress]", "⟨...V⟩ > [+stress] / _%#", "% > [+sec.stress] / %:[+stress]_", "[+nasal] > [tone: 3]", "* > $ / _C#", "$ > * / _C",
+    // a boundary inserted where one already is (an empty half is left behind and has to be cleaned up), and with a generated environment
+    "* > $", "* > $ / C_$", "* > $ / V_$", "* > $ / $_", "* > $ / _$", "* > $ / $_V", "* > $ / #_", "* > $ / _#"];
 
 pub struct Case { pub class: String, pub rule: String, pub word: String }
 
@@ -24,7 +26,7 @@ fn envs(r: &mut Rng) -> String {
     s
 }
 
-fn gen(r: &mut Rng) -> Case {
+pub(crate) fn gen(r: &mut Rng) -> Case {
     let word = rand_word(r, &WordCfg { max_sylls: 5, ..WordCfg::default() });
     if r.chance(3, 5) {
         let k = r.range(1, 2);
@@ -67,7 +69,7 @@ pub fn judge(rep: &mut Report, c: &Case) {
 }
 
 pub fn explore(ctx: &Ctx, shard: usize, n: usize) -> Report {
-    drive::cases(ctx, shard, n, RULE, 0x14, 300_000, 10_000_000, |r, rep, _| { let c = gen(r); judge(rep, &c); })
+    drive::cases(ctx, shard, n, RULE, 0x14, 300_000, 100_000_000, |r, rep, _| { let c = gen(r); judge(rep, &c); })
 }
 pub fn replay(_ctx: &Ctx, v: &Value) -> Report {
     let mut rep = Report::new(RULE);
